@@ -1,0 +1,30 @@
+//go:build verif
+
+package cloudwatch
+
+// Contracts checked by /verif/gvc. Comment-only file (build tag verif).
+
+// The CloudWatch API client is assumed not to touch gostatsd's memory.
+//@ func (CloudwatchClient).PutMetricData
+//@   trusted
+
+// The sending goroutine of SendMetricsAsync (C16, C17): the data are sent in consecutive chunks of 1..20 items
+// that together cover every item exactly once, and the completion callback runs exactly once, afterwards.
+//@ func (*Client).SendMetricsAsync$1
+//@   requires length == len(metricData) && length >= 1 && api != nil && cb != nil && client != nil
+//@   callsite PutMetricData requires 1 <= len(arg1.MetricData) && len(arg1.MetricData) <= 20
+//@   callsite PutMetricData requires base(arg1.MetricData) == base(metricData) && off(arg1.MetricData) + len(arg1.MetricData) == off(metricData) + start && calls(cb) == 0
+//@   callsite cb requires start == length && calls(cb) == 0
+//@   loop 1 invariant 0 <= start && start <= length && length == len(metricData) && calls(cb) == 0 && api != nil && cb != nil && client != nil && metricData == pre(metricData)
+//@   ensures  calls(cb) == 1
+//@   modifies everything
+
+// SendMetricsAsync answers with exactly one callback: directly when there is nothing to send, otherwise from
+// the one goroutine it starts.
+//@ func (*Client).SendMetricsAsync
+//@   requires client != nil && cb != nil && metrics != nil && client.cloudwatch != nil
+//@   ensures  calls(cb) + calls(go1) == 1
+//@   modifies everything
+//@ func (*Client).buildMetricData
+//@   trusted
+//@   modifies everything
